@@ -795,47 +795,128 @@ Proof.
     + discriminate.
 Qed.
 
-Lemma refresh_closure_np : forall pn tmpname t,
-  wf_txn t -> uinv t -> nis t -> t_patch t pn <> None -> t_patch t tmpname <> None -> pn <> tmpname ->
-  nsat uinv (match t_patch t pn, t_patch t tmpname with
-        | Some pc, Some tc =>
-            let old := get (t_objs t) pc in
-            let new_tree := tree_of (t_objs t) tc in
-            let t1 :=
-              if tree_eqb new_tree (tree_of (t_objs t) pc) then (t, None)
-              else
-                let '(objs', o) :=
-                  put (t_objs t)
-                      (plain (parents_of (t_objs t) pc) new_tree
-                             (match old with Some c => c_meta c | None => 0%N end)
-                             (subj_of (t_objs t) pc)) in
-                (set_objs t objs', Some o) in
-            let '(t2, _) := delete_patches (fun n => name_eqb n tmpname) (fst t1) in
-            match snd t1 with
-            | Some o => update_patch pn o t2
-            | None => TOk t2
-            end
-        | _, _ => TPanic
-        end).
+Lemma nis_perm : forall t t1,
+  nis t -> Permutation (t_all t1) (t_all t) -> t_stack t1 = t_stack t -> nis t1.
 Proof.
-  intros pn tmpname t W U Hn Hp Ht Hne.
-  destruct (t_patch t pn) as [pc|] eqn:Epc; [|congruence].
-  destruct (t_patch t tmpname) as [tc|]; [|congruence]. cbv zeta.
-  destruct (tree_eqb _ _); cbn [fst snd].
-  - destruct (delete_patches _ t) as [t2 inc] eqn:Ed. cbn [nsat]. eapply delete_np; eauto.
-  - unfold put. cbv beta iota. cbn [fst snd]. set (c := plain _ _ _ _).
-    set (t0 := set_objs t (t_objs t ++ [c])).
-    assert (U0 : uinv t0) by exact U. assert (Hn0 : nis t0) by exact Hn.
-    destruct (delete_patches _ t0) as [t2 inc] eqn:Ed.
-    apply update_patch_np; [eapply delete_np; eauto|].
-    apply delete_spec in Ed as [keep [popped [_ [_ [-> _]]]]].
-    rewrite t_patch_upd, up_get_mark_deleted.
-    match goal with |- context [mem pn ?D] => destruct (mem pn D) eqn:Em end.
-    + exfalso. apply mem_In in Em. rewrite !in_app_iff in Em.
-      assert (Hx : name_eqb pn tmpname = true).
-      { destruct Em as [Em|[Em|Em]]; apply filter_In in Em as [_ Em]; exact Em. }
-      apply name_eqb_eq in Hx. contradiction.
-    + change (t_patch t pn <> None). rewrite Epc. discriminate.
+  intros t t1 Hn Hp Hs n Hi. unfold stack_has. rewrite Hs. apply Hn.
+  eapply Permutation_in; [exact Hp|exact Hi].
+Qed.
+
+(* step 1 of the applied case: pop what is above the patch, push the temporary patch alone *)
+Lemma refresh_step1_np : forall pn tmpname A t,
+  wf_txn t -> uinv t -> t_applied t = A ++ [tmpname] -> In pn A ->
+  nsat (fun t1 => uinv t1 /\ t_stack t1 = t_stack t)
+    (if Nat.ltb 1 (length (after_name pn A ++ [tmpname])) then
+       let '(t1, extra) := pop_patches (fun n => mem n (after_name pn A ++ [tmpname])) t in
+       match extra with
+       | _ :: _ => TPanic
+       | [] => push_patches [tmpname] false t1
+       end
+     else TOk t).
+Proof.
+  intros pn tmpname A t W U Ha Hin.
+  destruct (edit_pop_facts pn t W) as (k & Hk & Hpop & W1 & Hds & Hin1).
+  rewrite Ha, (after_name_app pn A [tmpname] Hin), <- Ha in Hk.
+  destruct (Nat.ltb 1 _).
+  - rewrite Hk, Hpop.
+    assert (U1 : uinv (edit_popped t k)) by (eapply uinv_same; [| |exact U]; reflexivity).
+    eapply nsat_impl.
+    + apply push_patches_np; [exact W1|exact U1|repeat constructor; intros []|].
+      intros n [<-|[]]. apply Hin1. rewrite <- Hk. apply in_or_app. right. now left.
+    + intros t1 [[_ U1'] Hs]. split; [exact U1'|exact Hs].
+  - cbn [nsat]. split; [exact U|reflexivity].
+Qed.
+
+Lemma refresh_absorb_np : forall pn tmpname A t,
+  wf_txn t -> uinv t -> nis t -> t_applied t = A ++ [tmpname] -> pn <> tmpname -> In pn (t_all t) ->
+  nsat uinv (refresh_absorb pn tmpname t).
+Proof.
+  intros pn tmpname A t W U Hn Ha Hne Hpn. unfold refresh_absorb.
+  destruct (last_applied_fresh t A tmpname W Ha) as [HdA [HA [HU HH]]].
+  destruct (mem pn (t_applied t)) eqn:Em.
+  - apply mem_In in Em. rewrite Ha in Em. apply in_app_or in Em as [Hin|[Hx|[]]]; [|congruence].
+    cbv zeta. rewrite Ha, (after_name_app pn A [tmpname] Hin).
+    set (R := after_name pn A).
+    assert (HdR : NoDup R).
+    { unfold R. destruct (after_name_skipn pn A) as [j ->]. now apply (NoDup_firstn_skipn _ j A HdA). }
+    eapply nsat_tbind;
+      [exact (refresh_absorb_step1 pn tmpname A t W Ha Hin)
+      |exact (refresh_step1_np pn tmpname A t W U Ha Hin)|].
+    cbv beta. intros t1 [W1 [Hperm [K [Ha1 HR]]]] [U1 Hs1]. fold R in HR.
+    pose proof (nis_perm t t1 Hn Hperm Hs1) as Hn1.
+    assert (Hpn1 : In pn (t_all t1)) by (eapply Permutation_in; [apply Permutation_sym; exact Hperm|exact Hpn]).
+    assert (Htn1 : In tmpname (t_all t1)).
+    { apply in_all_cases. left. rewrite Ha1. apply in_or_app. right. now left. }
+    apply (wt_dom t1 W1) in Htn1.
+    pose proof (proj1 (wt_dom t1 W1 pn) Hpn1) as Hpc1.
+    destruct (t_patch t1 pn) as [pc|] eqn:Epc; [|congruence].
+    destruct (t_patch t1 tmpname) as [tc|]; [|congruence].
+    unfold last_error. rewrite last_error_app. rewrite name_eqb_refl. cbn [negb].
+    rewrite removelast_snoc.
+    destruct (refresh_commit t1 pc (tree_of (t_objs t1) tc)) as [t2 newc] eqn:Erc.
+    destruct (refresh_commit_wf t1 pn pc _ t2 newc W1 Epc Erc) as [W2 [[L1 [L2 L3]] [Hp2 Ho2]]].
+    destruct (refresh_commit_same _ _ _ _ _ Erc) as [S2 [Up2 All2]].
+    assert (U2 : uinv t2) by (eapply uinv_same; [exact Up2|exact S2|exact U1]).
+    assert (Hn2 : nis t2).
+    { intros n Hi. unfold stack_has. rewrite S2. apply Hn1. now rewrite <- All2. }
+    destruct (delete_patches _ t2) as [t3 inc] eqn:Ed.
+    assert (Ha2 : t_applied t2 = K ++ [tmpname]) by congruence.
+    pose proof (delete_np _ _ _ _ U2 Hn2 Ed) as U3.
+    destruct (delete_tmp_facts tmpname K t2 t3 inc W2 Ha2 Ed) as [W3 [A3 [U3' [H3 O3]]]].
+    assert (Hall3 : forall n, n <> tmpname -> In n (t_all t1) -> In n (t_all t3)).
+    { intros n Hnn Hi. apply in_all_cases. rewrite A3, U3', H3, L2, L3.
+      apply in_all_cases in Hi. rewrite Ha1 in Hi. destruct Hi as [Hi|Hi]; [|now right].
+      apply in_app_or in Hi as [Hi|[<-|[]]]; [now left|congruence]. }
+    assert (HtR : ~ In tmpname R).
+    { intros Hi. apply HA. unfold R in Hi. now apply after_name_incl in Hi. }
+    assert (Hpush : forall t4, wf_txn t4 -> uinv t4 -> same_lists t3 t4 ->
+              nsat uinv (push_patches R false t4)).
+    { intros t4 W4 U4 [M1 [M2 M3]]. apply push_patches_np0; [exact W4|exact U4|exact HdR|].
+      intros n Hi. destruct (HR n Hi) as [H1 H2]. rewrite M1, A3. split; [|exact H2].
+      assert (Hi3 : In n (t_all t3)).
+      { apply Hall3; [|exact H1]. intros ->. contradiction. }
+      apply in_all_cases. rewrite M1, M2, M3. now apply in_all_cases. }
+    destruct newc as [o|]; cbn [tbind].
+    + assert (Hp3 : t_patch t3 pn <> None).
+      { apply (wt_dom t3 W3). now apply Hall3. }
+      pose proof (update_patch_wf pn o t3 W3) as Hw. rewrite O3 in Hw. specialize (Hw (Ho2 o eq_refl)).
+      pose proof (update_patch_np pn o t3 U3 Hp3) as Hu.
+      unfold update_patch in *. destruct (t_patch t3 pn); [|congruence].
+      cbn [tbind good res_sat nsat] in *.
+      apply Hpush; [exact Hw|exact Hu|repeat split].
+    + apply Hpush; [exact W3|exact U3|repeat split].
+  - rewrite (pop_last t A tmpname Ha HA).
+    set (t1 := set_lists t A (tmpname :: t_unapplied t) (t_hidden t)).
+    assert (W1 : wf_txn t1).
+    { pose proof (pop_last t A tmpname Ha HA) as Ep. now apply (pop_wf _ _ _ _ W) in Ep as [W1 _]. }
+    assert (U1 : uinv t1) by (eapply uinv_same; [| |exact U]; reflexivity).
+    assert (Hn1 : nis t1).
+    { pose proof (pop_last t A tmpname Ha HA) as Ep. apply (pop_wf _ _ _ _ W) in Ep as [_ Hp].
+      now apply (nis_perm t). }
+    assert (Htn : In tmpname (t_all t)).
+    { apply in_all_cases. left. rewrite Ha. apply in_or_app. right. now left. }
+    apply (wt_dom t W) in Htn. apply (wt_dom t W) in Hpn.
+    change (t_patch t1 pn) with (t_patch t pn). change (t_patch t1 tmpname) with (t_patch t tmpname).
+    destruct (t_patch t pn) as [pc|] eqn:Epc; [|congruence].
+    destruct (t_patch t tmpname) as [tc|]; [|congruence].
+    destruct (first_parent _ _) as [tpar|]; [|exact I].
+    destruct (apply3way _ _ _ _) as [tree'|]; [|exact U1].
+    destruct (refresh_commit t1 pc tree') as [t2 newc] eqn:Erc.
+    destruct (refresh_commit_wf t1 pn pc _ t2 newc W1 Epc Erc) as [W2 [_ [Hp2 _]]].
+    destruct (refresh_commit_same _ _ _ _ _ Erc) as [S2 [Up2 All2]].
+    assert (U2 : uinv t2) by (eapply uinv_same; [exact Up2|exact S2|exact U1]).
+    assert (Hn2 : nis t2).
+    { intros n Hi. unfold stack_has. rewrite S2. apply Hn1. now rewrite <- All2. }
+    assert (Hdel : forall t3, uinv t3 -> nis t3 ->
+              nsat uinv (TOk (fst (delete_patches (fun n => name_eqb n tmpname) t3)))).
+    { intros t3 U3 Hn3. destruct (delete_patches _ t3) as [t4 inc] eqn:Ed. cbn [fst nsat].
+      eapply delete_np; eauto. }
+    destruct newc as [o|]; cbn [tbind].
+    + unfold update_patch. rewrite Hp2. change (t_patch t1 pn) with (t_patch t pn). rewrite Epc.
+      cbn [tbind]. apply Hdel.
+      * eapply uinv_up_some; [reflexivity|reflexivity|exact U2].
+      * exact Hn2.
+    + now apply Hdel.
 Qed.
 
 Lemma nodup_snoc_neq : forall (A : Type) (l r : list A) x y, NoDup ((l ++ [x]) ++ r) -> In y l -> y <> x.
@@ -844,11 +925,21 @@ Proof.
   apply (H x Hy). now left.
 Qed.
 
-Lemma run_refresh_np : forall w, Inv w -> stack_ref_has_parent w -> snd (run_refresh w) <> XPanic.
+Lemma run_refresh_np : forall w p, Inv w -> stack_ref_has_parent w -> snd (run_refresh w p) <> XPanic.
 Proof.
-  intros w Hi Hs. unfold run_refresh. np_open.
+  intros w p Hi Hs. unfold run_refresh.
+  lazymatch goal with |- snd (match ?x with Some _ => _ | None => _ end) <> XPanic =>
+    destruct x as [loc_l|] eqn:Eol end; [|discriminate].
+  pose proof (refresh_loc_wf p loc_l Eol) as Hwf. clear Eol.
+  np_open.
   destruct (head_top_ok op) eqn:Eh; cbn [negb]; [|np_leaf].
-  destruct (last_error (s_applied (op_state op))) as [pn|] eqn:El; [|np_leaf].
+  match goal with |- snd (rres_bind _ ?r _) <> XPanic => destruct r as [pn| |] eqn:Epn; cbn [rres_bind] end;
+    [|np_leaf|].
+  2:{ exfalso. destruct loc_l as [l|].
+      - pose proof (resolve_constrained_ok (view_of (op_state op)) LCVisible l (Hwf l eq_refl)) as Hk.
+        now rewrite Epn in Hk.
+      - destruct (last_error (s_applied (op_state op))); discriminate. }
+  pose proof (refresh_target_in (op_state op) loc_l pn Hwf Epn) as Hpn.
   destruct (w_unmerged (op_world op)); [np_leaf|].
   unfold put. cbv beta iota zeta.
   pose proof (on_ok _ _ Eo) as Hop.
@@ -856,59 +947,40 @@ Proof.
   set (tmpname := match uniquify s_refresh_temp [] (all_of (op_state op)) with
                   | UOk n => n | UFuel => s_refresh_temp end).
   set (tmpc := length (w_objs (op_world op))).
+  assert (Hnm : names_ok (tmpname :: all_of (op_state op))).
+  { apply uniquify_names_ok; [exact Hn|exact refresh_temp_valid]. }
   match goal with |- context [transact ?o ?a ?f ?m] =>
     assert (Hm : Inv (fst (transact o a f m)) /\ stack_ref_has_parent (fst (transact o a f m))
                  /\ snd (transact o a f m) <> XPanic);
     [|destruct (transact o a f m) as [w2 x] eqn:Et] end.
   { split; [|split].
     - apply transact_inv.
-      + apply op_ok_put; [exact Hop|]. intros p [<-|[]]. exact Hbr.
-      + intros W. apply new_applied_wf; [exact W| |apply patch_commit_new].
-        apply uniquify_names_ok; [exact Hn|exact refresh_temp_valid].
+      + apply op_ok_put; [exact Hop|]. intros q [<-|[]]. exact Hbr.
+      + intros W. apply new_applied_wf; [exact W|exact Hnm|apply patch_commit_new].
       + frame_auto.
     - apply transact_sref; [|frame_auto]. apply sref_with_objs; [apply store_extends_put|apply Eo].
     - apply transact_np.
-      + apply op_ok_put; [exact Hop|]. intros p [<-|[]]. exact Hbr.
+      + apply op_ok_put; [exact Hop|]. intros q [<-|[]]. exact Hbr.
       + apply sref_with_objs; [apply store_extends_put|apply Eo].
-      + intros W. apply new_applied_wf; [exact W| |apply patch_commit_new].
-        apply uniquify_names_ok; [exact Hn|exact refresh_temp_valid].
+      + intros W. apply new_applied_wf; [exact W|exact Hnm|apply patch_commit_new].
       + intros W U _. eapply new_applied_np; [exact U| |].
         * eapply begin_top; eassumption.
         * apply first_parent_new.
       + frame_auto. }
   cbn [fst snd] in Hm. destruct Hm as [Hi2 [Hs2 Hx]]. destruct x; try exact Hx; try discriminate.
-  apply transact_ok_state in Et as (t' & st1 & prev & th & Ef & Hcur).
-  assert (Ea' : t_applied t' = s_applied (op_state op) ++ [tmpname]).
-  { unfold new_applied in Ef. destruct (first_parent _ _); [|discriminate].
-    destruct (t_top _); [|discriminate]. destruct (Nat.eqb _ _); [|discriminate].
-    injection Ef as <-. reflexivity. }
   destruct (open_stack PAllow w2) as [op2|] eqn:Eo2; [|np_leaf].
-  pose proof (open_cur_state _ _ _ Eo2 Hcur) as Es2.
+  destruct (refresh_reopened _ _ _ _ _ _ Et Eo2) as [Ha2 [Hu2 Hh2]].
   apply (open_opn _ _ _ Hi2 Hs2) in Eo2.
-  pose proof (on_ok _ _ Eo2) as Hop2. pose proof Hop2 as [_ [Hst2 _]].
-  assert (Ha2 : s_applied (op_state op2) = s_applied (op_state op) ++ [tmpname]).
-  { rewrite Es2. cbn. exact Ea'. }
-  apply last_error_In in El.
-  assert (Hpn2 : In pn (all_of (op_state op2))).
-  { apply in_applied_all. rewrite Ha2. apply in_or_app. now left. }
-  assert (Htn2 : In tmpname (all_of (op_state op2))).
-  { apply in_applied_all. rewrite Ha2. apply in_or_app. right. now left. }
+  pose proof (on_ok _ _ Eo2) as Hop2.
   assert (Hne : pn <> tmpname).
-  { pose proof Hst2 as [[Hd _] _]. unfold all_of in Hd. rewrite Ha2 in Hd.
-    eapply nodup_snoc_neq; [exact Hd|exact El]. }
-  apply transact_np; [exact Hop2|apply Eo2| | |].
-  - intros W. now apply refresh_closure.
-  - intros W U Hnis. apply refresh_closure_np; auto.
-    + change (pm_get (s_patches (op_state op2)) pn <> None). eapply state_has; eassumption.
-    + change (pm_get (s_patches (op_state op2)) tmpname <> None). eapply state_has; eassumption.
-  - cbv beta. set (t := begin_txn op2 _). clearbody t.
-    destruct (t_patch t pn) as [pc|]; [|exact I].
-    destruct (t_patch t _) as [tc|]; [|exact I].
-    match goal with |- frame _ (match delete_patches ?f (fst ?t1) with _ => _ end) =>
-      assert (H1 : fr t (fst t1)); [|generalize dependent t1; intros t1' H1] end.
-    { destruct (tree_eqb _ _); cbn [fst]; [apply fr_refl|]. split; [reflexivity|].
-      rewrite t_objs_set_objs. apply store_extends_put. }
-    eapply frame_fr; [exact H1|]. frame_auto.
+  { intros ->. destruct Hnm as [Hnd _]. inversion Hnd as [|x0 l0 Hfr _]. apply Hfr.
+    unfold all_of. rewrite app_assoc. apply in_or_app. now left. }
+  apply transact_np; [exact Hop2|apply Eo2| | |apply frame_refresh_absorb].
+  - intros W. eapply refresh_absorb_wf; [exact W|exact Ha2|exact Hne].
+  - intros W U Hnis. eapply refresh_absorb_np; [exact W|exact U|exact Hnis|exact Ha2|exact Hne|].
+    apply in_all_cases. change (t_applied (begin_txn op2 _)) with (s_applied (op_state op2)).
+    change (t_unapplied (begin_txn op2 _)) with (s_unapplied (op_state op2)).
+    rewrite Ha2, Hu2. apply in_app_or in Hpn as [Hp|Hp]; [left; apply in_or_app; now left|right; now left].
 Qed.
 
 (* ---------------------------------------------------------------- edit / rebase *)
